@@ -40,6 +40,8 @@ def step_line(step):
         sv = str(v)
     elif p == "s":
         sv = exe.hexs(v)
+    elif p == "d":
+        sv = str(v)
     else:
         sv = "null" if v is None else exe.NAMES[v]
     return "C %d %s %s" % (k, p, sv)
@@ -49,7 +51,7 @@ def history(rng, w, n, multi=False):
     out = []
     for _ in range(n):
         k = rng.choice([0, 1, 2, 0, 1])
-        p = rng.choice(["b", "i", "u", "s", "next", "next", "i"] + (["m2"] * 6 if multi else []))
+        p = rng.choice(["b", "i", "u", "s", "next", "next", "i", "d"] + (["m2"] * 6 if multi else []))
         if rng.random() < 0.1:
             v = w[k][p]                 # setting the same value again: no signal
         elif p == "b":
@@ -60,6 +62,11 @@ def history(rng, w, n, multi=False):
             v = rng.choice(exe.UINTS)
         elif p == "s":
             v = rng.choice(exe.STRS)
+        elif p == "d":
+            # the setter compares with ==: a zero of the other sign is "the same value" and is not stored -- not generated
+            v = rng.choice([x for x in exe.DOUBLES if x != exe.DBL(-0.0) or w[k]["d"] not in (0, exe.DBL(-0.0))])
+            if v == 0 and w[k]["d"] == exe.DBL(-0.0):
+                v = exe.DBL(1.5)
         else:
             v = rng.choice([None, 0, 1, 2])
         out.append((k, p, v))
@@ -207,7 +214,7 @@ def run(ctx):
     outs = [o for part in parts for o in part]
     expected = {}
     for key, o in zip(where, outs):
-        expected[key] = re.findall(r'"([^"]*)"', o)
+        expected[key] = [exe.canon_doubles(x) for x in re.findall(r'"([^"]*)"', o)]
         if len(expected[key]) != nsteps + 1:
             ctx.broke("K", "model/Sem.v evaluation", "the reference evaluator gave no result list for a binding: %s" % o[:600])
             return
@@ -239,7 +246,8 @@ def run(ctx):
                         continue
                     ncmp += 1
                     have = vals[k] if k < len(vals) else "?"
-                    if have != want:
+                    # the property setter of the API model (like Qt's) compares with ==: a zero of the other sign is not stored
+                    if have != want and not ({have, want} <= {"d:0", "d:9223372036854775808"}):
                         ctx.violation("after %s the bound property holds %s but the expression is worth %s in the current state" % ("setup()" if si == 0 else "step %d (%s)" % (si, step_line(steps[si - 1])), have, want),
                                       {"qml": cxx.document([("tgt", sgen.PROP[t], src)]), "binding": src, "initial_world": {exe.NAMES[q]: w0[q] for q in range(4)},
                                        "history": [step_line(s) for s in steps[:si]], "impl_output": have, "oracle_output": want, "case": {"program": p, "type": t},
@@ -301,7 +309,7 @@ def shared_notify(ctx, vh, rng, nsteps):
             for st in steps:
                 ws.append(apply_step(ws[-1], st))
             outs = C.coq_eval_terms("c02m_%s%d" % (mode, k), HDR, ["map (fun w => show_res (run_binding NAMES %d%%nat w \"m1\" %s)) %s" % (exe.NAMES.index(o), prog.coq_program(pr), C.coq_list([exe.coq_world(w) for w in ws]))], scope="Z_scope", timeout=600)
-            want = re.findall(r'"([^"]*)"', outs[0]) if outs else []
+            want = [exe.canon_doubles(x) for x in re.findall(r'"([^"]*)"', outs[0])] if outs else []
             if len(want) != nsteps + 1:
                 ctx.broke("K", "model/Sem.v evaluation", "the reference evaluator gave no result list for a shared-notify binding: %s" % (outs[0][:400] if outs else ""))
                 return
